@@ -219,11 +219,22 @@ def decodeClass : Sexp → Option ClassDecl
     pure ⟨n, as'⟩
   | _ => none
 
+def decodeStrs : Sexp → Option (List String)
+  | .list xs => xs.mapM (fun x => match x with | .str s => some s | _ => none)
+  | _ => none
+
 def decodeAssoc : Sexp → Option Assoc
   | .list [.sym "assoc", .str rel, .str src, .str tgt, .str sp, .str tp, sm, tm] => do
     let sm' ← decodeBool sm
     let tm' ← decodeBool tm
-    pure ⟨rel, src, tgt, sp, tp, sm', tm'⟩
+    pure { rel := rel, src := src, tgt := tgt, srcPhrase := sp, tgtPhrase := tp, srcMany := sm', tgtMany := tm' }
+  | .list [.sym "assoc", .str rel, .str src, .str tgt, .str sp, .str tp, sm, tm, sk, tk] => do
+    let sm' ← decodeBool sm
+    let tm' ← decodeBool tm
+    let sk' ← decodeStrs sk
+    let tk' ← decodeStrs tk
+    pure { rel := rel, src := src, tgt := tgt, srcPhrase := sp, tgtPhrase := tp, srcMany := sm', tgtMany := tm',
+           srcKeys := sk', tgtKeys := tk' }
   | _ => none
 
 def decodeCallable : Sexp → Option Callable
